@@ -23,8 +23,7 @@ def run(tier):
     r = run.mc("FieldAlg", "MC_FieldAlg_ts97_nonsq.cfg", timeout=300, expect_ok=False)
     if "TsTerminatesOnNonSquares is violated" not in r.out: raise vlib.Infra("FieldAlg: the non-square configuration was not rejected")
     # unbounded (TLAPS): Montgomery reduction is exact and lands in [0, 2p) for every radix, modulus and input below R p
-    t0 = __import__("time").time(); nob, _ = vlib.tlapm("RedcTheorem")
-    run.mc_runs.append({"module": "RedcTheorem", "role": "TLAPS proof (tlapm, Z3): RedcExact, RedcRange", "obligations_proved": nob, "wall_s": round(__import__("time").time() - t0, 1)})
+    vlib.tlapm_note(run, "RedcTheorem", "TLAPS proof (tlapm, Z3): RedcExact, RedcRange")
     for cfg in (["MC_WordArith_w2n2", "MC_WordArith_w2n3"] if tier == "quick" else ["MC_WordArith_w2n2", "MC_WordArith_w2n3", "MC_WordArith_w3n2", "MC_WordArith_w4n2"]):
         run.mc("MC_WordArith", cfg + ".cfg", timeout=1500)
     # (2) G->I: TLC-generated cases replayed on the default build and the portable builds
